@@ -333,7 +333,14 @@ func (o *structFieldsCBOR) FromCBOR(dm cbor.DecMode, data []byte) error {
 	}
 
 	if mapLen != 0 {
-		o.Fields = make(map[int]cbor.RawMessage, mapLen)
+		// the declared length comes from the input; each entry takes at
+		// least two bytes, so do not reserve more than the input can hold
+		hint := mapLen
+		if hint > len(rest)/2 {
+			hint = len(rest) / 2
+		}
+
+		o.Fields = make(map[int]cbor.RawMessage, hint)
 
 		for i := 0; i < mapLen; i++ {
 			rest, err = o.unmarshalKeyValue(dm, rest)
